@@ -293,8 +293,8 @@ static int load_into(const asn_TYPE_descriptor_t *td, const char **pp, void *st)
         }
         break;
     }
-    case K_CHOICE: {
-        if(strcmp(head, "choice")) BADHEAD();
+    case K_CHOICE: case K_OPEN: {     /* open type member (C18): CHOICE-like storage, form (open <row> <val>) */
+        if(strcmp(head, k == K_OPEN ? "open" : "choice")) BADHEAD();
         if(atom(pp, a, sizeof a)) return -1;
         if(!strcmp(a, "-none")) { choice_set_present(td, st, 0); break; }      /* unselected CHOICE */
         if(!strcmp(a, "-bad")) { choice_set_present(td, st, td->elements_count + 5); break; }
@@ -405,13 +405,13 @@ void rf_dump(const asn_TYPE_descriptor_t *td, const void *st, FILE *out) {
         fputc(')', out);
         break;
     }
-    case K_CHOICE: {
+    case K_CHOICE: case K_OPEN: {
         unsigned present = choice_get_present(td, st);
-        if(present == 0 || present > td->elements_count) { fprintf(out, "(choice -none)"); break; }
+        if(present == 0 || present > td->elements_count) { fprintf(out, "(%s -none)", k == K_OPEN ? "open" : "choice"); break; }
         const asn_TYPE_member_t *elm = &td->elements[present - 1];
         const void *ms = (elm->flags & ATF_POINTER) ? *(const void *const *)((const char *)st + elm->memb_offset)
                                                     : (const void *)((const char *)st + elm->memb_offset);
-        fprintf(out, "(choice %s ", elm->name);
+        fprintf(out, "(%s %s ", k == K_OPEN ? "open" : "choice", elm->name);
         rf_dump(elm->type, ms, out);
         fputc(')', out);
         break;
